@@ -155,6 +155,34 @@ fn record_hist(args: &[String]) {
     }
 }
 
+/// record-stress --out <raw trace> --seed s [--clients k --queriers q --requests n --bg-flush --evict --restarts r] [cfg]
+fn record_stress(args: &[String]) {
+    let output = arg(args, "--out").expect("--out");
+    let sc = lvh::stress::StressCfg {
+        seed: arg(args, "--seed").map(|s| s.parse().unwrap()).unwrap_or(0),
+        clients: arg(args, "--clients").map(|s| s.parse().unwrap()).unwrap_or(3),
+        queriers: arg(args, "--queriers").map(|s| s.parse().unwrap()).unwrap_or(2),
+        requests_per_client: arg(args, "--requests").map(|s| s.parse().unwrap()).unwrap_or(12),
+        background_flush: args.iter().any(|a| a == "--bg-flush"),
+        evict: args.iter().any(|a| a == "--evict"),
+        restarts: arg(args, "--restarts").map(|s| s.parse().unwrap()).unwrap_or(1),
+    };
+    let cfg = cfg_from_args(args);
+    let dir = tempfile::tempdir().expect("tempdir");
+    locustdb::verif::install_tracer();
+    lvh::util::take_panics();
+    let mut res = lvh::stress::run(&sc, &cfg, dir.path());
+    res["panics"] = json!(lvh::util::take_panics());
+    let trace = locustdb::verif::take_trace();
+    let mut out = std::fs::File::create(&output).expect("open output");
+    for l in trace {
+        writeln!(out, "{}", l).unwrap();
+    }
+    let mut r = std::fs::File::create(format!("{}.results", output)).expect("open results");
+    writeln!(r, "{}", res).unwrap();
+    println!("{}", res);
+}
+
 fn main() {
     lvh::util::quiet_panics();
     let args: Vec<String> = std::env::args().collect();
@@ -163,6 +191,7 @@ fn main() {
         Some("replay-one") => replay_one(&args[2..]),
         Some("crashimg") => crashimg(&args[2..]),
         Some("record-hist") => record_hist(&args[2..]),
+        Some("record-stress") => record_stress(&args[2..]),
         _ => {
             eprintln!("usage: lvh <replay-hist> ...");
             std::process::exit(2);
